@@ -175,17 +175,7 @@ func c15(c *Ctx) (*report.Result, error) {
 			}
 			res.Check(bad == "", "O15.2", "makeServerOptions: "+meth+" present whenever aclPolicy != nil ("+name+")", instrPos(c.Prog, ci.call), fmt.Sprintf("%d chain variants", len(ci.alts)), bad)
 		}
-		// the interceptor is built from the policy's lists
-		mk := flow.FindCalls(f, func(cc *ssa.CallCommon) bool { return flow.IsCallTo(cc, icPkg, "", "NewAccessControlInterceptor") })
-		if len(mk) != 1 {
-			res.Undec("O15.2", "makeServerOptions: NewAccessControlInterceptor call", fnPos(c.Prog, f), fmt.Sprintf("%d calls", len(mk)))
-		} else {
-			args := mk[0].Common().Args
-			p1, _ := flow.FieldPath(args[1])
-			p2, _ := flow.FieldPath(args[2])
-			res.Check(strings.HasSuffix(p1, "aclPolicy.AllowedMethods.AdminService") && strings.HasSuffix(p2, "aclPolicy.AllowedNamespaces"), "O15.2",
-				"makeServerOptions: interceptor built from aclPolicy.AllowedMethods.AdminService / AllowedNamespaces", instrPos(c.Prog, mk[0]), p1+", "+p2, "the ACL interceptor is not built from the configured policy lists ("+p1+", "+p2+")")
-		}
+		checkACLBuiltFromPolicy(c, res, "O15.2", f)
 	}
 	if f := resolve(c, res, "O15.2", anchor{"interceptor", "", "NewAccessControlInterceptor"}); f != nil {
 		// adminServiceAccess built from param 1, namespaceAccess from param 2
@@ -700,4 +690,146 @@ func checkIsAllowedExact(c *Ctx, res *report.Result, rule string) {
 		}
 		res.Check(okKeys && n > 0, rule, "NewAccesControl keys the map by the list's own elements", fnPos(c.Prog, f), "allowedMap[allowed] = true for allowed := range list", "the allow-list is stored under transformed keys (case folding, trimming, ...): names that are not in the list become members")
 	}
+}
+
+// checkACLBuiltFromPolicy: the two allow-lists handed to NewAccessControlInterceptor are the policy's own lists -
+// the field itself, or the result of a helper whose returned slice holds nothing but elements of that field
+// (copying, de-duplicating, dropping). A list that also holds names from elsewhere (translated aliases, defaults)
+// admits what the policy does not list.
+func checkACLBuiltFromPolicy(c *Ctx, res *report.Result, rule string, f *ssa.Function) {
+	mk := flow.FindCalls(f, func(cc *ssa.CallCommon) bool { return flow.IsCallTo(cc, icPkg, "", "NewAccessControlInterceptor") })
+	if len(mk) != 1 {
+		res.Undec(rule, "makeServerOptions: NewAccessControlInterceptor call", fnPos(c.Prog, f), fmt.Sprintf("%d calls", len(mk)))
+		return
+	}
+	args := mk[0].Common().Args
+	for _, spec := range []struct {
+		arg    int
+		suffix string
+	}{{1, "aclPolicy.AllowedMethods.AdminService"}, {2, "aclPolicy.AllowedNamespaces"}} {
+		construct := "makeServerOptions: the access-control interceptor's list #" + fmt.Sprint(spec.arg) + " is " + spec.suffix + " and nothing else"
+		v := args[spec.arg]
+		if p, ok := flow.FieldPath(v); ok && strings.HasSuffix(p, spec.suffix) {
+			res.Hold(rule, construct, instrPos(c.Prog, mk[0]), p)
+			continue
+		}
+		call, isCall := flow.Strip(v).(*ssa.Call)
+		if !isCall {
+			res.Viol(rule, construct, instrPos(c.Prog, mk[0]), "the ACL interceptor is not built from the configured policy list ("+flow.Describe(v)+")")
+			continue
+		}
+		g := flow.StaticCallee(&call.Call)
+		pidx := -1
+		for i, a := range call.Call.Args {
+			if p, ok := flow.FieldPath(a); ok && strings.HasSuffix(p, spec.suffix) {
+				pidx = i
+			}
+		}
+		if g == nil || pidx < 0 {
+			res.Viol(rule, construct, instrPos(c.Prog, mk[0]), "the ACL interceptor's list is computed by "+flow.Describe(v)+", which does not take the policy's list")
+			continue
+		}
+		if g.Pkg != nil && g.Pkg.Pkg.Path() == "slices" && originName(g) == "Clone" {
+			res.Hold(rule, construct, instrPos(c.Prog, mk[0]), "slices.Clone of the policy's list")
+			continue
+		}
+		if len(g.Blocks) == 0 {
+			res.Undec(rule, construct, instrPos(c.Prog, mk[0]), "the list passes through "+g.String()+", whose body is not available")
+			continue
+		}
+		ok, bad, known := sliceElemsOnlyFrom(g, g.Params[pidx])
+		switch {
+		case !known:
+			res.Undec(rule, construct, instrPos(c.Prog, mk[0]), "the list passes through "+shortFn(g)+", whose result could not be traced to its input ("+bad+")")
+		case !ok:
+			res.Viol(rule, construct, instrPos(c.Prog, mk[0]), "the list handed to the access check is built by "+shortFn(g)+", which also puts "+bad+" into it: names the policy does not list are admitted")
+		default:
+			res.Hold(rule, construct, instrPos(c.Prog, mk[0]), "built by "+shortFn(g)+", whose result holds only elements of the policy's list")
+		}
+	}
+}
+
+// sliceElemsOnlyFrom: every element of the slice g returns is an element of the parameter p (g builds its result
+// with make/nil + append of range elements of p, or returns p / a re-slice of p).
+func sliceElemsOnlyFrom(g *ssa.Function, p *ssa.Parameter) (ok bool, bad string, known bool) {
+	isElemOfP := func(v ssa.Value) bool {
+		ld, isLd := v.(*ssa.UnOp)
+		if !isLd || ld.Op != token.MUL {
+			return false
+		}
+		ia, isIA := ld.X.(*ssa.IndexAddr)
+		return isIA && flow.Strip(flow.ResolveLoad(ia.X)) == ssa.Value(p)
+	}
+	seen := map[ssa.Value]bool{}
+	var walk func(v ssa.Value, d int) (bool, string, bool)
+	walk = func(v ssa.Value, d int) (bool, string, bool) {
+		if d > 12 {
+			return false, "too deep", false
+		}
+		if seen[v] {
+			return true, "", true
+		}
+		seen[v] = true
+		switch x := v.(type) {
+		case *ssa.Parameter:
+			if x == p {
+				return true, "", true
+			}
+			return false, "parameter " + x.Name(), true
+		case *ssa.Const:
+			return true, "", true // nil
+		case *ssa.MakeSlice:
+			return true, "", true
+		case *ssa.Slice:
+			if _, isArr := x.X.Type().Underlying().(*types.Pointer); isArr {
+				// a slice of a local array: its stored elements
+				if al, isAl := x.X.(*ssa.Alloc); isAl {
+					for _, r := range *al.Referrers() {
+						if ia, isIA := r.(*ssa.IndexAddr); isIA {
+							for _, rr := range *ia.Referrers() {
+								if st, isSt := rr.(*ssa.Store); isSt && st.Addr == ssa.Value(ia) {
+									if !isElemOfP(st.Val) {
+										return false, "a value that is not an element of its input (" + flow.Describe(st.Val) + ")", true
+									}
+								}
+							}
+						}
+					}
+					return true, "", true
+				}
+				return false, "array slice", false
+			}
+			return walk(x.X, d+1)
+		case *ssa.Phi:
+			for _, e := range x.Edges {
+				if o, b, k := walk(e, d+1); !k || !o {
+					return o, b, k
+				}
+			}
+			return true, "", true
+		case *ssa.Call:
+			if bi, isB := x.Call.Value.(*ssa.Builtin); isB && bi.Name() == "append" {
+				for _, a := range x.Call.Args {
+					if o, b, k := walk(a, d+1); !k || !o {
+						return o, b, k
+					}
+				}
+				return true, "", true
+			}
+			return false, "result of " + flow.Describe(x), false
+		}
+		return false, flow.Describe(v), false
+	}
+	any := false
+	for _, b := range g.Blocks {
+		for _, ins := range b.Instrs {
+			if ret, isR := ins.(*ssa.Return); isR && len(ret.Results) >= 1 {
+				any = true
+				if o, bd, k := walk(ret.Results[0], 0); !k || !o {
+					return o, bd, k
+				}
+			}
+		}
+	}
+	return any, "", any
 }
